@@ -11,7 +11,7 @@ reference.
 import itertools
 
 from vf import report
-from vf.explore import parallel
+from vf.explore import digest, parallel
 from vf.models import codec
 from vf.vworld import peer
 
@@ -19,6 +19,8 @@ PKTS = ['0', '1', '2', '3', '4text', '4{"k":[1,"x"]}', 'bAAEC', '5', '6', '7', '
 FRAMES = PKTS + [b'\x00\x01\x02', 'b!', '4']
 INTERVAL = 1.0
 T_BODY = 0.5
+_DIGESTS = set()
+_STEPS = [0]
 
 
 def ref_dispatch(pkts, transport):
@@ -182,6 +184,8 @@ def run_post_case(impl, case, out):
             if ref['end'] == 'client' and last and r.status != 200:
                 V(out, impl, 'close_refused', tr, 'status %r for a body ending in CLOSE' % r.status, case)
     finally:
+        _DIGESTS.add(digest.world_digest(w))
+        _STEPS[0] += w.nstep
         w.teardown()
 
 
@@ -239,6 +243,8 @@ def run_ws_case(impl, case, out):
         if INTERVAL not in ping_times:
             V(out, impl, 'ping_missing', 'heartbeat', 'PING instants %r, want one at %.2f' % (ping_times, INTERVAL), case)
     finally:
+        _DIGESTS.add(digest.world_digest(w))
+        _STEPS[0] += w.nstep
         w.teardown()
 
 
@@ -268,6 +274,8 @@ def run_dead_sid_cases(impl, out):
 def _work(chunk):
     out = []
     n = 0
+    _DIGESTS.clear()
+    _STEPS[0] = 0
     for what, impl, case in chunk:
         try:
             if what == 'post':
@@ -279,7 +287,7 @@ def _work(chunk):
         except report.Livelock as e:
             out.append(report.livelock_violation(impl, e, {'impl': impl, 'case': case}))
         n += 1
-    return [v.to_json() for v in out[:400]], n, len(out)
+    return [v.to_json() for v in out[:400]], n, len(out), sorted(_DIGESTS), _STEPS[0]
 
 
 def run(ctx):
@@ -312,21 +320,25 @@ def run(ctx):
     res = parallel.pmap_chunks(_work, parallel.split(jobs, ctx.workers * 6), ctx.workers, ctx.seed, maxtasks=6)
     n = 0
     nv = 0
-    for vs, k, m in res:
+    digs = set()
+    steps = 0
+    for vs, k, m, dg, stp in res:
         n += k
         nv += m
+        digs |= set(dg)
+        steps += stp
         for v in vs:
             rep.add(report.Violation.from_json(v))
     rep.coverage = {
-        'states': n, 'transitions': n * 6, 'traces_validated_against_impl': n,
+        'states': len(digs), 'transitions': steps, 'traces_validated_against_impl': n,
         'samples': [{'post_body': ['4text', '1', '4text']}, {'ws_frames': ['3', '7', {'__bytes__': '000102'}], 'session': 'upgraded'},
                     {'post_body': ['9x'], 'async_handlers': True}],
         'evaluations': n, 'distinct_nontrivial': n,
         'rule': 'every POST body of <= %d packets over %r (plus the complete depth-3 slice with a seed-chosen first packet at the '
                 'quick tier, and 16/17/18-packet bodies) and every sequence of <= %d frames over the same alphabet plus raw '
                 'binary, empty, invalid base64 and bare "4"; sessions: polling (pending poll%s), WebSocket-only, upgraded; '
-                'async_handlers in {False, True}; Server and AsyncServer. states counts histories (each executed once on the '
-                'real server: 1 trace each); transitions is an estimate of 6 environment steps per history.'
+                'async_handlers in {False, True}; Server and AsyncServer. states = distinct canonical digests of the final world '
+                'state over all histories; transitions = scheduler steps executed on the real servers; traces = histories.'
                 % (depth, PKTS, depth, '' if ctx.quick else ' on/off'),
         'exhaustive': True, 'bound_completed': depth, 'violating_cases_total': nv,
     }
